@@ -366,7 +366,7 @@ def run_history(run, case, arr, mode, stamped, ops, label):
 def k_random(run, case):
     rng = run.rng(case)
     n = int(rng.integers(1, 8) if rng.random() < .3 else rng.integers(1, {"quick": 60, "thorough": 200}[run.tier] + 1))
-    arr = gen.traj_arrays(rng, n, pos_cls=["walk", "utm", "tiny", "circle", "stationary_mix", "grid"][rng.integers(6)],
+    arr = gen.traj_arrays(rng, n, pos_cls=["walk", "utm", "tiny", "circle", "stationary_mix", "grid", "intwalk"][rng.integers(7)],
                           stamp_cls=["epoch", "small", "dyadic", "irregular"][rng.integers(4)])
     for k in range(1, n):
         if arr["t"][k] <= arr["t"][k - 1]:
@@ -407,7 +407,10 @@ class LazyOps:
 
 
 def run_history_lazy(run, case, arr, mode, stamped, lazy):
-    real = gen.make_evo(arr, mode, stamped, flavour=gen.rand_flavour(lazy.rng))
+    fl = gen.rand_flavour(lazy.rng)
+    if gen.all_integer(arr["p"]) and lazy.rng.random() < .5:
+        fl = "int" + fl[fl.find("+"):] if "+" in fl else "int"  # whole-number data: half of it as integers
+    real = gen.make_evo(arr, mode, stamped, flavour=fl)
     sh = ShadowTrajectory(arr["R"], arr["p"], arr["t"] if stamped else None)
     state = {"projected": False, "parents": []}
     step, opname = 0, "init"
